@@ -56,8 +56,10 @@ Proof. exact (exec_bound_init N na lt). Qed.
 Theorem C12_terminates_from_any : forall fixed evs s s',
   exec N na lt fixed s evs = Some s' -> nsteps evs <= Bmax N na + 2 * nspur evs.
 Proof. exact (exec_bound_any N na lt). Qed.
-Theorem C12_B0 : B0 N na = (3 * N + 5) + ((na + N - 1) / N) * (6 + N * (9 + 2 * N)) + 3 * N + 1.
-Proof. exact (B0_closed_form N na). Qed.
+(* B0 written out (nblocks = ceil(na / N), the number of iterations of the for loop): 7 + 2N thread steps per trial step,
+   6 + 2N per block, 6N + 6 for thread creation and termination *)
+Theorem C12_B0 : 1 <= na -> B0 N na = (6 * N + 6) + nblocks N na * (6 + 2 * N) + na * (7 + 2 * N).
+Proof. exact (B0_closed_form N na HN). Qed.
 
 (* schedules of thread steps only (Handshake.run): at most B0 steps from init, at most Bmax from any state *)
 Theorem C12_schedule_length : forall fixed sch s s',
@@ -115,10 +117,10 @@ Proof. exact refuted_race_common. Qed.
 Example C12_ex_finished : exists s,
   reachable 2 3 lt_ex true s /\ finished s /\ result s = Some (Some 2, true) /\ length ex_schedule = 53.
 Proof. exact ex_finished_reachable. Qed.
-(* the bound for N = 2 workers, na = 3 trial steps: B0 = 82 (Bmax = 172 from arbitrary states); the 53-step run above is within
+(* the bound for N = 2 workers, na = 3 trial steps: B0 = 71 (Bmax = 155 from arbitrary states); the 53-step run above is within
    it and ends with potential 0.  (The exact maximum over all schedules of this configuration, measured by the extracted
    model's exhaustive search, is 67.) *)
-Example C12_ex_bound : B0 2 3 = 82 /\ Bmax 2 3 = 172 /\ length ex_schedule <= B0 2 3 /\
+Example C12_ex_bound : B0 2 3 = 71 /\ Bmax 2 3 = 155 /\ length ex_schedule <= B0 2 3 /\
   exists s, run 2 3 lt_ex true init ex_schedule = Some s /\ finished s /\ Phi 2 3 s = 0.
 Proof. exact ex_bound. Qed.
 Example C12_ex_reading : exists s,
